@@ -244,6 +244,16 @@ pub fn match_bed_and_breakfast(
                     continue;
                 }
 
+                // A SPLIT with ratio 0 between the disposal and this acquisition leaves no
+                // sell-time equivalent of the acquired shares (and would divide by zero).
+                if cumulative_ratio_effect == Decimal::ZERO {
+                    return Err(CgtError::InvalidTransaction(format!(
+                        "SELL {} on {}: a split ratio of 0 applies before the acquisition on {}; \
+                         split ratios must be positive",
+                        sell_tx.ticker, sell_tx.date, tx.date
+                    )));
+                }
+
                 let (matched_qty_at_sell_time, matched_qty_at_buy_time) =
                     matched_quantities_with_split_ratio(
                         *remaining,
